@@ -136,7 +136,7 @@ theorem parseAtomLine_of_slices (l : List Char) (r : AtomRead)
     (h9 : strip (slice 21 22 l) = r.chain) (h10 : strip (slice 26 27 l) = r.insCode)
     (h11 : strip (slice 17 20 l) = r.resName) (h12 : strip (slice 12 16 l) = r.name)
     (h13 : strip (slice 76 78 l) = r.element) : parseAtomLine l = some (.ok r) := by
-  unfold parseAtomLine
+  unfold parseAtomLine parseAtomLineAny
   rw [h13] at h3
   simp only [h1, h2, h4, h5, h6, h7, h8, h9, h10, h11, h12, h13, h3, bne_self_eq_false, Bool.false_eq_true, if_false]
 
